@@ -292,8 +292,7 @@ Section BasicK.
     { intros u1 H1. cbn [start_state].
       pose proof (run_K (decode (u_input u1)) (option_map clone baseUrl) ov (fuel_of (length (decode (u_input u1)))) _
                     (tail_init_K ov u1 H1)) as HR.
-      pose proof (run_never_out_of_fuel idna_raw c (decode (u_input u1)) (option_map clone baseUrl) (Some ov)
-                    (mk ov (-1)%Z false [] false false false u1)) as HF.
+      pose proof (run_never_out_of_fuel idna_raw c (decode (u_input u1)) (option_map clone baseUrl) (Some ov) ov u1) as HF.
       destruct (run idna_raw c (decode (u_input u1)) (option_map clone baseUrl) (Some ov)
                   (fuel_of (length (decode (u_input u1)))) (mk ov (-1)%Z false [] false false false u1));
         cbn [left_wf]; auto. }
@@ -358,3 +357,457 @@ Proof.
   - apply BasicParser_tail_left_wf. split; [exact Hw | exact I].
   - apply BasicParser_tail_left_wf. split; [exact Hw | exact I].
 Qed.
+
+(* ------------------------------------------------------------------------------------------ *)
+(* 4. ALL state overrides, for a parser that does not fail on validation errors (c_fail = false,*)
+(*    the default): the record left behind is well formed. Only the Path state may hold an      *)
+(*    ill-formed record (opaque, no segment) in between; it ends with a segment appended, and   *)
+(*    without c_fail it cannot be left early.                                                    *)
+(* ------------------------------------------------------------------------------------------ *)
+Section StepK2.
+  Variable idna_raw : str -> str * bool.
+  Variable c : cfg.
+  Variable inp : list rune.
+  Variable base : option url.
+  Variable ov : state.
+  Hypothesis Hcf : c_fail c = false.
+  Hypothesis Hbase : forall b, base = Some b -> wf b.
+
+  Definition K2 (m : mstate) : Prop :=
+    m_eof m = false /\ okst base (m_state m) /\
+    match m_state m with PathSt => True | _ => wf (m_url m) end.
+
+  Definition PostK2 (o : outcome) : Prop :=
+    match o with
+    | Panic => False
+    | Cont m' => (m_eof m' = false -> K2 m') /\ (m_eof m' = true -> wf (m_url m'))
+    | RetUrl u | RetErr u _ | RetNilNil u => wf u
+    end.
+
+  Lemma K2_mherr u t f k :
+    (f = true -> wf u) ->
+    (forall u', u_path u' = u_path u -> u_opaque u' = u_opaque u -> u_query u' = u_query u -> PostK2 (k u')) ->
+    PostK2 (mherr c u t f k).
+  Proof.
+    intros Hfin Hk. unfold mherr. pose proof (sh_handleError c u t f) as Hs. apply sh_inv in Hs.
+    destruct f.
+    - destruct (handleError c u t true) as [u' [e|]]; cbn [fst] in Hs; destruct Hs as (Hp & Ho & Hq).
+      + cbn. specialize (Hfin eq_refl). unfold wf in *. rewrite Hp, Ho. exact Hfin.
+      + apply Hk; assumption.
+    - pose proof (handleError_nofail c u t Hcf) as Hn.
+      destruct (handleError c u t false) as [u' [e|]]; cbn [fst snd] in *; destruct Hs as (Hp & Ho & Hq).
+      + discriminate Hn.
+      + apply Hk; assumption.
+  Qed.
+
+  Ltac k2walk :=
+    repeat first
+      [ progress cbv beta
+      | match goal with
+        | |- PostK2 (mherr _ _ _ _ _) => apply K2_mherr; [ intros ?Hf | intros ?u' ?Hp ?Ho ?Hq ]
+        | |- PostK2 (match parseHost ?a ?b ?u ?d ?e with _ => _ end) =>
+            let E := fresh "Eph" in
+            destruct (parseHost a b u d e) as [?u' ?h|?u' ?e'] eqn:E;
+            [apply parseHost_Ok in E | apply parseHost_Er in E]; destruct E as (?Hp & ?Ho & ?Hq)
+        | |- PostK2 ((if ?b then _ else _) _) => destruct b eqn:?
+        | |- PostK2 (if ?b then _ else _) => destruct b eqn:?
+        | |- PostK2 (match ?x with _ => _ end) => destruct x eqn:?
+        end ].
+
+  Ltac k2norm :=
+    unfold PostK2, K2, okst, wf, mk, addSegment, copy_base_auth in *;
+    cbn [m_state m_url m_eof needs_base u_path u_opaque u_query
+         set_input set_scheme set_username set_password set_host set_port set_path set_query set_fragment set_verrs set_sp] in *;
+    rewrite ?path_cleanDefaultPort, ?opaque_cleanDefaultPort, ?query_cleanDefaultPort in *;
+    cbn [m_state m_url m_eof needs_base u_path u_opaque u_query
+         set_input set_scheme set_username set_password set_host set_port set_path set_query set_fragment set_verrs set_sp] in *.
+
+  Ltac k2fin :=
+    first
+      [ exact I
+      | discriminate
+      | congruence
+      | assumption
+      | solve [ match goal with
+                | H : u_opaque ?y = true -> u_path ?y <> [] |- u_path ?x <> [] =>
+                    let E := fresh in intro E; apply H; congruence
+                end ]
+      | solve [eapply replaceLast_path; eassumption]
+      | solve [eapply replace_last_nonnil; eassumption]
+      | solve [left; discriminate]
+      | solve [left; congruence]
+      | solve [right; reflexivity]
+      | solve [exfalso; unfold rune_error in *; lia] ].
+
+  Ltac k2leaf :=
+    k2norm;
+    repeat match goal with |- context [if ?b then _ else _] => destruct b eqn:? end;
+    k2norm;
+    intros; repeat split; intros;
+    repeat match goal with H : _ /\ _ |- _ => destruct H end;
+    first [ solve [k2fin] | idtac ].
+
+  Lemma step_K2 m : K2 m -> PostK2 (step idna_raw c inp base (Some ov) m).
+  Proof.
+    intros HK. destruct m as [st p e buf aF brF pwF u].
+    unfold K2 in HK. cbn [m_state m_url m_eof] in HK. destruct HK as (He & Hok & HK). subst e.
+    destruct base as [b|] eqn:Eb; [ pose proof (Hbase b eq_refl) as Hwb | ].
+    - destruct st;
+      cbv beta iota zeta delta [step mk m_state m_ptr m_eof m_buf m_at m_br m_pw m_url overridden is_some isSpecialSchemeAndBackslash];
+      destruct (n_inp inp <=? p + 1)%Z eqn:En;
+      rewrite ?re_35, ?re_37, ?re_43, ?re_45, ?re_46, ?re_47, ?re_58, ?re_63, ?re_64, ?re_91, ?re_92, ?re_93,
+              ?re_alpha, ?re_alnum, ?re_digit;
+      cbn [negb andb orb];
+      rewrite ?orb_false_r, ?andb_false_r, ?orb_true_r, ?andb_true_r;
+      cbn [negb andb orb];
+      k2walk; k2leaf.
+    - destruct Hok as [Hok|Hok]; [congruence|].
+      destruct st; cbn [needs_base] in Hok; try discriminate Hok;
+      cbv beta iota zeta delta [step mk m_state m_ptr m_eof m_buf m_at m_br m_pw m_url overridden is_some isSpecialSchemeAndBackslash];
+      destruct (n_inp inp <=? p + 1)%Z eqn:En;
+      rewrite ?re_35, ?re_37, ?re_43, ?re_45, ?re_46, ?re_47, ?re_58, ?re_63, ?re_64, ?re_91, ?re_92, ?re_93,
+              ?re_alpha, ?re_alnum, ?re_digit;
+      cbn [negb andb orb];
+      rewrite ?orb_false_r, ?andb_false_r, ?orb_true_r, ?andb_true_r;
+      cbn [negb andb orb];
+      k2walk; k2leaf.
+  Qed.
+End StepK2.
+
+Section BasicK2.
+  Variable idna_raw : str -> str * bool.
+  Variable c : cfg.
+  Hypothesis Hcf : c_fail c = false.
+
+  Lemma run_K2 inp base ov : (forall b, base = Some b -> wf b) -> forall fuel m, K2 base m ->
+    match run idna_raw c inp base (Some ov) fuel m with
+    | RPanic => False | ROutOfFuel => True | RUrl u | RErr u _ | RNilNil u => wf u end.
+  Proof.
+    intros Hb. induction fuel as [|f IH]; intros m HK; [exact I|].
+    cbn [run]. pose proof (step_K2 idna_raw c inp base ov Hcf Hb m HK) as HP.
+    destruct (step idna_raw c inp base (Some ov) m) as [m'|u'|u' e'|u'|]; cbn [PostK2] in HP; try exact HP.
+    destruct HP as [H1 H2]. destruct (m_eof m') eqn:Ee; [apply H2; reflexivity | apply IH; apply H1; reflexivity].
+  Qed.
+
+  Lemma bp_start_K2 baseUrl ov u :
+    (forall b, baseUrl = Some b -> wf b) -> okst baseUrl ov -> wf u ->
+    left_wf (bp_start idna_raw c baseUrl (Some ov) u).
+  Proof.
+    intros Hb Hok Hw. unfold bp_start.
+    assert (Hb' : forall b, option_map clone baseUrl = Some b -> wf b).
+    { intros b E. destruct baseUrl as [b0|]; [|discriminate E]. injection E as <-.
+      apply (wfp_sh true b0); [reflexivity | apply Hb; reflexivity]. }
+    assert (Hok' : okst (option_map clone baseUrl) ov).
+    { destruct Hok as [H|H]; [left | right; exact H]. destruct baseUrl; [discriminate | congruence]. }
+    assert (Hk : forall u1, wf u1 ->
+      left_wf (run idna_raw c (decode (u_input u1)) (option_map clone baseUrl) (Some ov)
+        (fuel_of (length (decode (u_input u1)))) (mk (start_state (Some ov)) (-1)%Z false [] false false false u1))).
+    { intros u1 H1. cbn [start_state].
+      assert (HK : K2 (option_map clone baseUrl) (mk ov (-1)%Z false [] false false false u1)).
+      { unfold K2, mk. cbn [m_eof m_state m_url]. split; [reflexivity|]. split; [exact Hok'|]. destruct ov; auto. }
+      pose proof (run_K2 (decode (u_input u1)) (option_map clone baseUrl) ov Hb' (fuel_of (length (decode (u_input u1)))) _ HK) as HR.
+      pose proof (run_never_out_of_fuel idna_raw c (decode (u_input u1)) (option_map clone baseUrl) (Some ov) ov u1) as HF.
+      destruct (run idna_raw c (decode (u_input u1)) (option_map clone baseUrl) (Some ov)
+                  (fuel_of (length (decode (u_input u1)))) (mk ov (-1)%Z false [] false false false u1));
+        cbn [left_wf]; auto. }
+    destruct (remove_tabnl_sv (c_acceptInvalid c) (u_input u)) as [i changed]. cbv zeta.
+    destruct changed; [|apply Hk; exact Hw].
+    pose proof (sh_handleError c u InvalidURLUnit false) as Hh.
+    destruct (handleError c u InvalidURLUnit false) as [u' [e|]]; cbn [fst] in Hh.
+    - cbn [left_wf]. apply (wfp_sh true u u' Hh). exact Hw.
+    - apply Hk. apply (wfp_sh true u); [|exact Hw]. change (sh (set_input u' i)) with (sh u'). exact Hh.
+  Qed.
+
+  (* every state override; the record to fill may be absent (nil) *)
+  Theorem BasicParser_all_states_left_wf input baseUrl u0 ov :
+    (forall b, baseUrl = Some b -> wf b) -> (baseUrl <> None \/ needs_base ov = false) ->
+    (forall u, u0 = Some u -> wf u) ->
+    left_wf (BasicParser idna_raw c input baseUrl u0 (Some ov)).
+  Proof.
+    intros Hb Hok Hu. rewrite BasicParser_eq. destruct u0 as [u|].
+    - apply bp_start_K2; [exact Hb | exact Hok |]. apply (wfp_sh true u); [reflexivity | apply Hu; reflexivity].
+    - cbv zeta. destruct (trim_c0space input) as [i ch].
+      assert (Hwe : wf (empty_url input)) by apply wf_empty.
+      destruct ch; [|apply bp_start_K2; assumption].
+      pose proof (sh_handleError c (empty_url input) InvalidURLUnit false) as Hh.
+      destruct (handleError c (empty_url input) InvalidURLUnit false) as [u' [e|]]; cbn [fst] in Hh.
+      + cbn [left_wf]. apply (wfp_sh true _ u' Hh). exact Hwe.
+      + apply bp_start_K2; [exact Hb | exact Hok |]. apply (wfp_sh true (empty_url input)); [|exact Hwe].
+        change (sh (set_input u' i)) with (sh u'). exact Hh.
+  Qed.
+End BasicK2.
+
+(* ------------------------------------------------------------------------------------------ *)
+(* 5. The statements about Direct.direct                                                       *)
+(* ------------------------------------------------------------------------------------------ *)
+
+(* what direct shows of a result of BasicParser *)
+Definition render (c : cfg) (given : bool) (r : result) : list str :=
+  match r with
+  | RUrl u => [85] :: obs_left c u
+  | RErr u e => [69] :: verr_obs e :: (if given then obs_left c u else [])
+  | RNilNil u => [78] :: (if given then obs_left c u else [])
+  | RPanic => [[33]]
+  | ROutOfFuel => [[70]]
+  end.
+
+(* the arguments direct builds: both records come from Parse / NewUrl, hence are well formed *)
+Lemma direct_spec idna_raw c base start ov input l :
+  direct idna_raw c base start ov input = Some l ->
+  exists ob u0,
+    (ob = None <-> base = None) /\
+    (forall b, ob = Some b -> wf b) /\ (forall u, u0 = Some u -> wf u) /\
+    l = render c (is_some u0) (BasicParser idna_raw c input ob u0 (state_of_N ov)) /\
+    (u0 = None <-> start = DNil).
+Proof.
+  unfold direct. intros H.
+  destruct base as [bt|].
+  - destruct (Parse idna_raw c bt) as [b| | | |] eqn:Eb; try discriminate H.
+    pose proof (Parse_wf idna_raw c bt b Eb) as Hwb.
+    destruct start as [| |s].
+    + injection H as <-. exists (Some b), None. repeat split; intros; try discriminate; try congruence;
+      try (match goal with H0 : Some _ = Some _ |- _ => injection H0 as <-; assumption end).
+    + injection H as <-. exists (Some b), (Some (empty_url [])). repeat split; intros; try discriminate; try congruence;
+      try (match goal with H0 : Some _ = Some _ |- _ => injection H0 as <-; assumption end).
+      match goal with H0 : Some _ = Some _ |- _ => injection H0 as <-; apply wf_empty end.
+    + destruct (Parse idna_raw c s) as [u| | | |] eqn:Eu; try discriminate H.
+      pose proof (Parse_wf idna_raw c s u Eu) as Hwu.
+      injection H as <-. exists (Some b), (Some u). repeat split; intros; try discriminate; try congruence;
+      try (match goal with H0 : Some _ = Some _ |- _ => injection H0 as <-; assumption end).
+  - destruct start as [| |s].
+    + injection H as <-. exists None, None. repeat split; intros; try discriminate; try congruence;
+      try (match goal with H0 : Some _ = Some _ |- _ => injection H0 as <-; assumption end).
+    + injection H as <-. exists None, (Some (empty_url [])). repeat split; intros; try discriminate; try congruence;
+      try (match goal with H0 : Some _ = Some _ |- _ => injection H0 as <-; assumption end).
+      match goal with H0 : Some _ = Some _ |- _ => injection H0 as <-; apply wf_empty end.
+    + destruct (Parse idna_raw c s) as [u| | | |] eqn:Eu; try discriminate H.
+      pose proof (Parse_wf idna_raw c s u Eu) as Hwu.
+      injection H as <-. exists None, (Some u). repeat split; intros; try discriminate; try congruence;
+      try (match goal with H0 : Some _ = Some _ |- _ => injection H0 as <-; assumption end).
+Qed.
+
+Lemma render_panic c given r : render c given r = [[33]] -> r = RPanic.
+Proof. destruct r; cbn [render]; try discriminate; reflexivity. Qed.
+
+Lemma state_of_N_needs_base ov st : state_of_N ov = Some st -> needs_base st = true -> ov = 5 \/ ov = 20 \/ ov = 21.
+Proof.
+  intros H Hn. unfold state_of_N in H. destruct ov as [|p]; [discriminate|].
+  repeat match type of H with context [match ?q with _ => _ end] => is_var q; destruct q end;
+    try discriminate H; injection H as <-; try discriminate Hn; auto.
+Qed.
+
+(* O6, the exact form: direct answers "!" only without base and only for the overrides 5, 20, 21 *)
+Theorem direct_panic_origin : forall idna_raw c base start ov input,
+  direct idna_raw c base start ov input = Some [[33]] ->
+  base = None /\ (ov = 5 \/ ov = 20 \/ ov = 21).
+Proof.
+  intros idna_raw c base start ov input H.
+  destruct (direct_spec _ _ _ _ _ _ _ H) as (ob & u0 & Hob & _ & _ & Hl & _).
+  symmetry in Hl. apply render_panic in Hl. apply BasicParser_panic_origin in Hl. destruct Hl as [Hn Hs].
+  split; [apply Hob; exact Hn|].
+  destruct Hs as [Hs|[Hs|Hs]]; apply state_of_N_needs_base in Hs; auto.
+Qed.
+
+(* the overrides of the setters: never "!", whatever base and record *)
+Theorem direct_setter_states_no_panic_direct : forall idna_raw c base start ov input l,
+  In ov [1; 10; 11; 15; 17; 18; 19] ->
+  direct idna_raw c base start ov input = Some l -> l <> [[33]].
+Proof.
+  intros idna_raw c base start ov input l Hin H E. subst l.
+  apply direct_panic_origin in H. destruct H as [_ H]. cbn [In] in Hin.
+  destruct H as [-> | [-> | ->]]; repeat (destruct Hin as [Hin|Hin]; [discriminate Hin|]); exact Hin.
+Qed.
+
+(* with a base: never "!", for every override number (a state, or none) *)
+Theorem direct_all_states_total_with_base : forall idna_raw c b start ov input l,
+  direct idna_raw c (Some b) start ov input = Some l -> l <> [[33]].
+Proof.
+  intros idna_raw c b start ov input l H E. subst l.
+  apply direct_panic_origin in H. destruct H as [H _]. discriminate H.
+Qed.
+
+Lemma obs_left_wf c u : wf u -> obs_left c u = obs_url c u.
+Proof.
+  intros Hw. unfold obs_left. pose proof (getters_total u false Hw) as [_ Hp].
+  destruct (Pathname u); [reflexivity | congruence].
+Qed.
+
+(* the record left behind, for a parser that does not fail on validation errors: every override, with a base or with a
+   state that does not read it. "G" (a record on which Pathname / Href panic) is never shown: obs_left_wf *)
+Theorem direct_all_states_record_wf : forall idna_raw c base start ov st input l,
+  c_fail c = false -> state_of_N ov = Some st -> (base <> None \/ needs_base st = false) ->
+  direct idna_raw c base start ov input = Some l ->
+  exists r, l = render c (match start with DNil => false | _ => true end) r /\ left_wf r.
+Proof.
+  intros idna_raw c base start ov st input l Hcf Hst Hok H.
+  destruct (direct_spec _ _ _ _ _ _ _ H) as (ob & u0 & Hob & Hwb & Hwu & Hl & Hs).
+  exists (BasicParser idna_raw c input ob u0 (state_of_N ov)). split.
+  - rewrite Hl. f_equal. destruct u0 as [u|]; destruct start as [| |s]; cbn [is_some]; try reflexivity; exfalso.
+    + destruct Hs as [_ Hs]. specialize (Hs eq_refl). discriminate Hs.
+    + destruct Hs as [Hs _]. specialize (Hs eq_refl). discriminate Hs.
+    + destruct Hs as [Hs _]. specialize (Hs eq_refl). discriminate Hs.
+  - rewrite Hst. apply BasicParser_all_states_left_wf; auto.
+    destruct Hok as [Hb|Hn]; [left | right; exact Hn]. intros E. apply Hb. apply Hob. exact E.
+Qed.
+
+(* ------------------------------------------------------------------------------------------ *)
+(* 6. The nil-base panics in general form                                                      *)
+(* ------------------------------------------------------------------------------------------ *)
+
+(* override Relative without base: the very first step dereferences the base, whatever the input, the record and
+   the configuration; the call can only end earlier with the tab / newline / trimming error of a failing parser *)
+Theorem BasicParser_Relative_nil_base : forall idna_raw c input u0,
+  BasicParser idna_raw c input None u0 (Some Relative) = RPanic \/
+  exists u e, BasicParser idna_raw c input None u0 (Some Relative) = RErr u e.
+Proof.
+  intros idna_raw c input u0. rewrite BasicParser_eq.
+  assert (Hrun : forall u, run idna_raw c (decode (u_input u)) None (Some Relative) (fuel_of (length (decode (u_input u))))
+                      (mk Relative (-1)%Z false [] false false false u) = RPanic).
+  { intros u. destruct (fuel_of (length (decode (u_input u)))) as [|f] eqn:Ef; [unfold fuel_of in Ef; lia|]. reflexivity. }
+  assert (Hs : forall u, bp_start idna_raw c None (Some Relative) u = RPanic \/
+                    exists u' e, bp_start idna_raw c None (Some Relative) u = RErr u' e).
+  { intros u. unfold bp_start. destruct (remove_tabnl_sv (c_acceptInvalid c) (u_input u)) as [i ch]. cbv zeta.
+    cbn [option_map start_state].
+    destruct ch; [|left; apply Hrun].
+    destruct (handleError c u InvalidURLUnit false) as [u' [e|]]; [right; eauto | left; apply Hrun]. }
+  destruct u0 as [u|]; [apply Hs|]. cbv zeta. destruct (trim_c0space input) as [i ch].
+  destruct ch; [|apply Hs].
+  destruct (handleError c (empty_url input) InvalidURLUnit false) as [u' [e|]]; [right; eauto | apply Hs].
+Qed.
+
+Corollary BasicParser_Relative_nil_base_panics : forall idna_raw c input u0,
+  c_fail c = false -> BasicParser idna_raw c input None u0 (Some Relative) = RPanic.
+Proof.
+  intros idna_raw c input u0 Hcf.
+  destruct (BasicParser_Relative_nil_base idna_raw c input u0) as [H|(u & e & H)]; [exact H|].
+  exfalso.
+  revert H. rewrite BasicParser_eq.
+  assert (Hs : forall u1, bp_start idna_raw c None (Some Relative) u1 <> RErr u e).
+  { intros u1. unfold bp_start. destruct (remove_tabnl_sv (c_acceptInvalid c) (u_input u1)) as [i ch]. cbv zeta.
+    cbn [option_map start_state].
+    assert (Hrun : forall u2, run idna_raw c (decode (u_input u2)) None (Some Relative) (fuel_of (length (decode (u_input u2))))
+                      (mk Relative (-1)%Z false [] false false false u2) <> RErr u e).
+    { intros u2. destruct (fuel_of (length (decode (u_input u2)))) as [|f] eqn:Ef; [unfold fuel_of in Ef; lia|]. discriminate. }
+    destruct ch; [|apply Hrun].
+    pose proof (handleError_nofail c u1 InvalidURLUnit Hcf) as Hn.
+    destruct (handleError c u1 InvalidURLUnit false) as [u' [e'|]]; [discriminate Hn | apply Hrun]. }
+  destruct u0 as [u1|]; [apply Hs|]. cbv zeta. destruct (trim_c0space input) as [i ch].
+  destruct ch; [|apply Hs].
+  pose proof (handleError_nofail c (empty_url input) InvalidURLUnit Hcf) as Hn.
+  destruct (handleError c (empty_url input) InvalidURLUnit false) as [u' [e'|]]; [discriminate Hn | apply Hs].
+Qed.
+
+(* ------------------------------------------------------------------------------------------ *)
+(* 7. Concrete instances: witnesses, premises satisfiable, hypotheses necessary                 *)
+(* ------------------------------------------------------------------------------------------ *)
+From Verif Require Import Gen.Options.
+From Coq Require Import String.
+Local Open Scope string_scope.
+
+Definition idna_id (s : str) : str * bool := (s, false).
+
+(* O6: the three nil-base panics ... *)
+Example direct_special_relative_or_authority_nil_base_panics :
+  direct idna_id default_cfg None DNil 5 (bs "x") = Some [[33]].
+Proof. vm_compute. reflexivity. Qed.
+Example direct_relative_nil_base_panics :
+  direct idna_id default_cfg None DNil 20 (bs "x") = Some [[33]].
+Proof. vm_compute. reflexivity. Qed.
+Example direct_relative_slash_nil_base_panics :
+  direct idna_id default_cfg None DNil 21 (bs "x") = Some [[33]].
+Proof. vm_compute. reflexivity. Qed.
+(* ... also with a parsed record to fill and with the empty input ... *)
+Example direct_nil_base_panics_parsed_record :
+  forallb (fun ov => match direct idna_id default_cfg None (DParsed (bs "http://h/p?q#f")) ov [] with
+                     | Some [[33]] => true | _ => false end) [5; 20; 21] = true.
+Proof. vm_compute. reflexivity. Qed.
+(* ... but not for every input: "//h" (5) and "/y" (21) pass the base dereference by *)
+Example direct_nil_base_not_every_input :
+  (exists l, direct idna_id default_cfg None DNew 5 (bs "//h") = Some ([85] :: l)) /\
+  (exists l, direct idna_id default_cfg None DNew 21 (bs "/y") = Some ([85] :: l)).
+Proof. split; eexists; vm_compute; reflexivity. Qed.
+(* ... and they disappear with a base: the same calls return a URL ("U" and the getters) *)
+Example direct_with_base_no_panic :
+  map (fun ov => match direct idna_id default_cfg (Some (bs "http://h/p")) DNil ov (bs "x") with
+                 | Some ([85] :: href :: _) => href | _ => [] end) [5; 20; 21]
+  = [bs "http://h/x"; bs "http://h/x"; bs "://h/x"].
+Proof. vm_compute. reflexivity. Qed.
+
+(* the premises of direct_setter_states_total hold for an opaque parse result and the default parser, PathStart included *)
+Example direct_setter_states_total_premises :
+  exists u, Parse idna_id default_cfg (bs "mailto:x?q") = PUrl u /\ wf u /\ u_opaque u = true /\
+    (forall st, st = PathStart -> u_opaque u = false \/ c_fail default_cfg = false) /\
+    left_wf (BasicParser idna_id default_cfg (bs "../^") None (Some u) (Some PathStart)).
+Proof.
+  eexists. split; [vm_compute; reflexivity|]. split; [unfold wf; cbn; discriminate|]. split; [reflexivity|].
+  split; [intros; right; reflexivity|]. vm_compute. discriminate.
+Qed.
+
+(* THE HYPOTHESIS ON PathStart IS NECESSARY. Go level:
+     p := url.NewParser(url.WithFailOnValidationError()); u, _ := p.Parse("mailto:x")
+     _, err := p.BasicParser("../^", nil, u, url.StatePathStart)   // err: invalid URL unit
+     u.Pathname()  /  u.Href(false)                                // index out of range: opaque path without segment
+   (SetPathname itself is safe: it returns early on an opaque path.) *)
+Example PathStart_opaque_leaves_ill_formed_record :
+  exists u u' e, Parse idna_id opt_WithFailOnValidationError (bs "mailto:x") = PUrl u /\ wf u /\
+    BasicParser idna_id opt_WithFailOnValidationError (bs "../^") None (Some u) (Some PathStart) = RErr u' e /\
+    ~ wf u' /\ Pathname u' = None /\ Href u' false = None /\
+    direct idna_id opt_WithFailOnValidationError None (DParsed (bs "mailto:x")) 17 (bs "../^")
+      = Some [[69]; bs "19:0"; [71]].
+Proof.
+  eexists. eexists. eexists. split; [vm_compute; reflexivity|]. split; [unfold wf; cbn; discriminate|].
+  split; [vm_compute; reflexivity|]. split; [intros H; apply H; reflexivity|].
+  split; [reflexivity|]. split; vm_compute; reflexivity.
+Qed.
+
+(* the statement asked for - every override, a base, parse results, ANY configuration - is false ... *)
+Definition direct_all_states_left_wf_full : Prop :=
+  forall idna_raw c bt b s u ov st input,
+    Parse idna_raw c bt = PUrl b -> Parse idna_raw c s = PUrl u -> state_of_N ov = Some st ->
+    left_wf (BasicParser idna_raw c input (Some b) (Some u) (Some st)).
+
+Definition ill_left (c : cfg) (bt s : string) (ov : N) (input : string) : bool :=
+  match direct idna_id c (Some (bs bt)) (DParsed (bs s)) ov (bs input) with
+  | Some [[69]; _; [71]] => true
+  | _ => false
+  end.
+
+(* ... for PathOrAuthority(8), File(12), FileSlash(14), Path(16), PathStart(17), RelativeSlash(21) with an opaque record to
+   fill, and for Relative(20) with an opaque base, when the parser fails on validation errors: the error return leaves a
+   record on which Pathname / Href panic ("G") *)
+Example direct_all_states_left_wf_refuted_witnesses :
+  forallb (fun ov => ill_left opt_WithFailOnValidationError "http://h/p" "mailto:x" ov "../^") [8; 12; 14; 16; 17; 21] = true /\
+  ill_left opt_WithFailOnValidationError "mailto:x" "http://h/p?q#f" 20 "../^" = true.
+Proof. split; vm_compute; reflexivity. Qed.
+
+Theorem direct_all_states_left_wf_refuted : ~ direct_all_states_left_wf_full.
+Proof.
+  intros H.
+  destruct (Parse idna_id opt_WithFailOnValidationError (bs "http://h/p")) as [b| | | |] eqn:Eb;
+    try (vm_compute in Eb; discriminate Eb).
+  destruct (Parse idna_id opt_WithFailOnValidationError (bs "mailto:x")) as [u| | | |] eqn:Eu;
+    try (vm_compute in Eu; discriminate Eu).
+  specialize (H idna_id opt_WithFailOnValidationError (bs "http://h/p") b (bs "mailto:x") u 16%N PathSt (bs "../^") Eb Eu eq_refl).
+  vm_compute in Eb. injection Eb as <-. vm_compute in Eu. injection Eu as <-.
+  vm_compute in H. apply H; reflexivity.
+Qed.
+
+(* with the default parser the same calls leave well-formed records (instances of direct_all_states_record_wf) *)
+Example direct_all_states_default_cfg_instances :
+  forallb (fun ov => negb (ill_left default_cfg "http://h/p" "mailto:x" ov "../^")) [8; 12; 14; 16; 17; 21] = true /\
+  ill_left default_cfg "mailto:x" "http://h/p?q#f" 20 "../^" = false.
+Proof. split; vm_compute; reflexivity. Qed.
+
+Print Assumptions direct_never_out_of_fuel.
+Print Assumptions BasicParser_panic_origin.
+Print Assumptions direct_setter_states_no_panic.
+Print Assumptions direct_setter_states_total.
+Print Assumptions BasicParser_all_states_left_wf.
+Print Assumptions direct_panic_origin.
+Print Assumptions direct_setter_states_no_panic_direct.
+Print Assumptions direct_all_states_total_with_base.
+Print Assumptions direct_all_states_record_wf.
+Print Assumptions BasicParser_Relative_nil_base.
+Print Assumptions BasicParser_Relative_nil_base_panics.
+Print Assumptions PathStart_opaque_leaves_ill_formed_record.
+Print Assumptions direct_all_states_left_wf_refuted.
